@@ -192,6 +192,8 @@ pub struct Case {
     pub over_tls: bool,
     /// never accompany this case by a connection on another thread
     pub no_interloper: bool,
+    /// (read index, seed): force an interloper at that read of this connection
+    pub interloper_at: Option<(u64, u64)>,
     /// never run predecessor connections before this case (it is one itself)
     pub no_predecessors: bool,
     pub conv: bool,
@@ -224,6 +226,7 @@ impl Case {
             via_run_on_stream: false,
             over_tls: false,
             no_interloper: false,
+            interloper_at: None,
             no_predecessors: false,
             conv: false,
             log_reads: true,
@@ -376,7 +379,9 @@ pub fn run_interloper(seed: u64) {
     let t = std::thread::Builder::new().name("vmon-interloper".into()).spawn(move || {
         let mut r = Rng::for_case(seed, "interloper", 0);
         for _ in 0..r.range(1, 2) {
-            let variant = [1u64, 2, 3, 4, 6, 7, 9, 9, 10, 10][r.usize(10)];
+            // (a seed with its top bit set asks for the client of another kind, one with the next bit for
+            // the statement-leaving one)
+            let variant = if seed >> 63 == 1 { 9 } else if (seed >> 62) & 1 == 1 { 10 } else { [1u64, 2, 3, 4, 6, 7, 9, 9, 10, 10][r.usize(10)] };
             let mut c = aux_case(&mut r, variant, seed, false);
             c.no_predecessors = true;
             c.no_interloper = true;
@@ -554,8 +559,13 @@ pub fn run_case(case: &Case) -> Obs {
         // a sixth of the cases: another thread serves another connection while this one waits in a read
         let hi = hash128(&world.input).0 ^ 0x517C_C1B7_2722_0A95;
         if hi % 6 == 1 {
-            world.interlope = Some((1 + (hi >> 8) % 9, hi));
+            // mostly at one of the first reads (just behind the handshake, between the first commands)
+            let k = if (hi >> 4) % 4 != 0 { 1 + (hi >> 8) % 3 } else { 1 + (hi >> 8) % 12 };
+            world.interlope = Some((k, hi));
         }
+    }
+    if let Some(x) = case.interloper_at {
+        world.interlope = Some(x);
     }
     world.budget_ops = if case.budget_ops != 0 {
         case.budget_ops
